@@ -20,7 +20,7 @@ import (
 // Input: as driver "pipe" (seeds = N)
 
 type fpObs struct {
-	ok                                                         bool
+	ok                                                           bool
 	table, tokens, bodies, temps, buckets, maxb, fds, goroutines int
 }
 
@@ -90,13 +90,14 @@ func genFootprint(r *Rng, i int, tier string) string {
 
 func init() {
 	register(&Driver{
-		Name:     "footprint",
-		Header:   "From ZenoV Require Import Lib.Harness Pipe.FootprintHarness.\nOpen Scope Z_scope.\n",
-		CaseType: "fcase",
-		Footer:   stdFooter,
-		Rule:     "non-trivial: both runs (N >= 2 and 4N seeds) reached quiescence and stopped cleanly; distinct by input line",
-		Gen:      genFootprint,
-		Exec:     execFootprint,
-		Parallel: 4,
+		Name:           "footprint",
+		Header:         "From ZenoV Require Import Lib.Harness Pipe.FootprintHarness.\nOpen Scope Z_scope.\n",
+		CaseType:       "fcase",
+		Footer:         stdFooter,
+		Rule:           "non-trivial: both runs (N >= 2 and 4N seeds) reached quiescence and stopped cleanly; distinct by input line",
+		Gen:            genFootprint,
+		Exec:           execFootprint,
+		Parallel:       4,
+		CaseTimeoutSec: 900,
 	})
 }
